@@ -197,7 +197,22 @@ def rule_examples(c, prog, R="C03.gram"):
     n = 0
     # --- Vector3int16
     body = doc.get("Vector3int16", (None, ""))[1]
-    m = re.search(r"values `(-?\d+), (-?\d+), (-?\d+)` and `(-?\d+), (-?\d+), (-?\d+)` are stored like this: `([0-9A-Fa-f ]+)`", body)
+    m = None
+    for lead, hx, raw in spec.hex_examples(body):
+        triples = [re.fullmatch(r"(-?\d+), (-?\d+), (-?\d+)", sp) for sp in spec.code_spans(lead)]
+        triples = [t for t in triples if t]
+        if len(raw) == 12 and len(triples) == 2:
+            class _M:      # the shape the code below reads
+                def __init__(self, g):
+                    self.g = g
+
+                def groups(self):
+                    return self.g
+
+                def group(self, i):
+                    return self.g[i - 1]
+            m = _M(tuple(triples[0].groups()) + tuple(triples[1].groups()) + (hx,))
+            break
     if m:
         n += 1
         want = [int(x) for x in m.groups()[:6]]
@@ -209,8 +224,22 @@ def rule_examples(c, prog, R="C03.gram"):
             c.violation(R, "example|Vector3int16", f"docs/binary.md, Vector3int16: the example stores `{', '.join(map(str, want[:3]))}` and `{', '.join(map(str, want[3:]))}` as `{m.group(7)}`, but read as the section describes them (little-endian i16, in sequence) those bytes are {got}; the values are `{' '.join(f'{b:02X}' for b in struct.pack('<6h', *want))}`", "docs/binary.md", instance="example:Vector3int16")
     # --- CFrame: the Position array of the two-value example
     body = doc.get("CFrame", (None, ""))[1]
-    mv = re.search(r"`CFrame\.new\((\d+), (\d+), (\d+)\)` and `CFrame\.new\((\d+), (\d+), (\d+)\)\*CFrame\.Angles", body)
-    mp = re.search(r"the `Position` array\) is: `([0-9A-Fa-f ]+)`", body)
+    cfs = re.findall(r"`CFrame\.new\((\d+), (\d+), (\d+)\)", body)
+    mv = mp = None
+    for lead, hx, raw in spec.hex_examples(body):
+        if len(raw) == 24 and re.search(r"[Pp]osition", lead) and len(cfs) >= 2:
+            class _V:
+                def __init__(self, g):
+                    self.g = g
+
+                def groups(self):
+                    return self.g
+
+                def group(self, i):
+                    return self.g[i - 1]
+            mv = _V(tuple(cfs[0]) + tuple(cfs[1]))
+            mp = _V((hx,))
+            break
     if mv and mp:
         n += 1
         want = [float(x) for x in mv.groups()]
